@@ -372,12 +372,53 @@ def run(ctx):
         if os.path.exists("peers.json.new"):
             res.violations.append({"kind": "write_peers left its temporary file behind"})
     res.count("peers_file_writes", len(written))
+    # ---- the same call under strace: the replacement must be atomic (a crash is simulated after every system call)
+    import shutil
+    import subprocess
+    import sys
+    import tempfile
+    from . import wallets
+    for rep in range(ctx.scale(2, 6)):
+        n_old = rng.choice([0, 3, 99, 100])
+        old_rows = [["10.9.%d.%d" % (i // 200, i % 200), 2412, OUTGOING, "2026-01-01T00:00:00Z"] for i in range(n_old)]
+        d = tempfile.mkdtemp(prefix="skv-peers-")
+        try:
+            old_text = json.dumps(old_rows, indent=4)
+            with open(os.path.join(d, "peers.json"), "w") as f:
+                f.write(old_text)
+            script = ("import sys; sys.path.insert(0, %r)\n"
+                      "from skepticoin.networking.disk_interface import DiskInterface\n"
+                      "from skepticoin.networking.remote_peer import DisconnectedRemotePeer, OUTGOING\n"
+                      "DiskInterface().write_peers(DisconnectedRemotePeer('10.8.8.%d', 2412, OUTGOING, None, 0))\n"
+                      % (kit.REPO, rep))
+            with open(os.path.join(d, "s.py"), "w") as f:
+                f.write(script)
+            pr = subprocess.run(["strace", "-f", "-s", "10000000", "-xx", "-e",
+                                 "trace=openat,open,write,rename,renameat,renameat2,unlink,unlinkat,close",
+                                 "-o", "trace.txt", sys.executable, "s.py"], cwd=d, stdout=subprocess.PIPE, stderr=subprocess.PIPE,
+                                env={**os.environ, "PYTHONDONTWRITEBYTECODE": "1"})
+            if pr.returncode != 0 or not os.path.exists(os.path.join(d, "trace.txt")):
+                res.notes.append("strace not available: atomic replacement of the peers file not exercised")
+                continue
+            calls = wallets.parse_trace(os.path.join(d, "trace.txt"), "peers.json")
+            new_text = open(os.path.join(d, "peers.json")).read()
+        finally:
+            shutil.rmtree(d, ignore_errors=True)
+        res.count("peers_file_saves_under_strace")
+        for n in range(len(calls) + 1):
+            files = wallets.replay_prefix(old_text, calls, n, None, name="peers.json")
+            content = files.get("peers.json")
+            res.case(("peers-crash", rep, n), nontrivial=True)
+            if content is None or content.decode(errors="replace") not in (old_text, new_text):
+                res.violations.append({"kind": "after a crash following system call %d of write_peers the peers file is neither "
+                                               "the complete old nor the complete new list" % n,
+                                       "calls": [c[:2] for c in calls][:8], "old_entries": n_old})
     res.rule = ("the real LocalPeer / NetworkManager / ConnectedRemotePeer handlers with an in-memory socket factory over two "
                 "hosts x two ports: %d random sequences of %d events (manager steps with clock increments from "
                 "{0,1,5,10,20,100,1800}, incoming connections, greetings incl. own nonce, announcements, closes); book digest "
                 "(connected / disconnected entries with ban score and last attempt, own addresses, attempt log) compared with "
                 "the model after every event; monitor: nothing raises (_sanity_check), disjointness, back-off spacing of every "
-                "attempt, self-connections dropped and not retried, announcements never overwrite; real write_peers: at most "
+                "attempt, self-connections dropped and not retried, announcements never overwrite; real write_peers (also under strace with a crash simulated after every system call): at most "
                 "100 entries, newest first, no duplicate key, no leftover temporary file. Distinct non-trivial = events"
                 % (n_random, length))
     return res
